@@ -2,6 +2,12 @@
 //
 // One case per line, fields separated by '|':
 //   <id>|<mode>|D:<doc tokens>|C:<ctx>;<id,id,...>|V:<name=VALUE;...>|N:<prefix=u:uri;...>|X:<u16 token of the expression>
+//   optional further fields (any order, after X:):  A:<s-expression>  (read by the model side only)
+//                                                   T:<u16 token of a document type declaration, "<!DOCTYPE r [ ... ]>">
+//   T: is prepended verbatim to the serialised document text before it is parsed (same SAX2 /
+//   XalanSourceTreeParserLiaison path): attribute types (ID for id()), attribute-value normalisation and
+//   attribute defaults then come from the internal subset.  Defaulted attributes are attribute nodes: they
+//   are numbered after the specified ones, in the order the parser reports them.
 // mode: eval  -> generic result + the five specialised entry points
 //       match -> X is a match pattern; prints one score class per node
 // doc tokens (space separated):  (qname   @qname=u:..   )   t=u:..   c=u:..   p=target=u:..
@@ -235,18 +241,30 @@ int main(int argc, char** argv)
         const std::string& id = fs[0];
         const std::string& mode = fs[1];
         std::string docf = fs[2].substr(2), ctxf = fs[3].substr(2), varf = fs[4].substr(2), nsf = fs[5].substr(2), xf = fs[6].substr(2);
+        std::string dtdf;
+        for (size_t k = 7; k < fs.size(); ++k) if (fs[k].compare(0, 2, "T:") == 0) { dtdf = fs[k].substr(2); break; }
+        const std::string dockey = dtdf.empty() ? docf : docf + "|T:" + dtdf;
         try {
-            if (docf != lastDocField || d.doc == 0) {
+            if (dockey != lastDocField || d.doc == 0) {
                 delete liaison; delete dom;
                 dom = new XalanSourceTreeDOMSupport;
                 liaison = new XalanSourceTreeParserLiaison(*dom, mm);
                 dom->setParserLiaison(liaison);
-                std::string xml = xml_of_tokens(docf);
+                std::string xml;
+                if (!dtdf.empty()) {
+                    const XalanDOMString t = u16_of_token(dtdf);
+                    for (XalanDOMString::size_type k = 0; k < t.length(); ++k) {
+                        if (t[k] >= 0x80) throw std::runtime_error("non-ASCII document type declaration");
+                        xml += (char) t[k];
+                    }
+                    xml += "\n";
+                }
+                xml += xml_of_tokens(docf);
                 xercesc::MemBufInputSource src((const XMLByte*) xml.data(), xml.size(), "case");
                 d = Doc();
                 d.doc = liaison->parseXMLStream(src);
                 d.walk(d.doc);
-                lastDocField = docf;
+                lastDocField = dockey;
             }
         } catch (...) {
             std::cout << id << "|docerr" << '\n';
